@@ -8,7 +8,7 @@
     regenerated from the engine (coq/gen/ZobristTables.v). *)
 From Coq Require Import ZArith NArith List Bool.
 From Texel Require Import Chess.Types Chess.Position Chess.PositionSpec Chess.PositionProofs3
-  Chess.PositionTheorems Chess.Fen Chess.PositionInst Chess.PositionExamples Chess.PositionSources Chess.PositionB Chess.PositionSerialize Chess.PositionNoUB.
+  Chess.PositionTheorems Chess.Fen Chess.PositionInst Chess.PositionExamples Chess.PositionSources Chess.PositionB Chess.PositionSerialize Chess.PositionNoUB Chess.PositionKings Chess.PositionFen Chess.PositionFenExample.
 Import ListNotations.
 Local Open Scope N_scope.
 
@@ -101,6 +101,15 @@ Theorem C02_rep_invariant_ops : forall zk, emptyKeysZero zk -> forall k p,
 Proof. exact ops_consistent. Qed.
 Print Assumptions C02_rep_invariant_ops.
 
+(** closure of well-formedness under moves: besides [Consistent] (C02_unmake_make_general) the
+    number of kings of each colour is kept by makeMove unless a king is captured ([kc K sqs] counts
+    the squares holding K) *)
+Theorem C02_kings_preserved : forall zk p m K,
+  Consistent zk p -> moveOk p m = true -> K = WKING \/ K = BKING -> getPiece p (mto m) <> K ->
+  kc K (squares (fst (makeMove zk p m))) = kc K (squares p).
+Proof. exact kings_preserved. Qed.
+Print Assumptions C02_kings_preserved.
+
 (** every position accepted by the FEN reader satisfies the invariant (so histories may start
     from any FEN) *)
 Theorem C02_rep_invariant_readFEN : forall zk, emptyKeysZero zk -> forall s p,
@@ -192,22 +201,25 @@ Theorem C02_serialize_roundtrip : forall zk, emptyKeysZero zk -> forall p,
 Proof. exact serialize_roundtrip. Qed.
 Print Assumptions C02_serialize_roundtrip.
 
-(** FEN: statement (not yet proved in general: needs the parsing proof of the placement rows and
-    num2Str/stoi; every FEN round trip of the correspondence run is compared instead) and the
-    instance for the start position *)
-Definition fenAcceptable (zk : zkeys) (p : position) : Prop :=
-  Consistent zk p /\ countPiece p WKING = 1%nat /\ countPiece p BKING = 1%nat /\
-  (forall s, s < 8 \/ 56 <= s < 64 -> getPiece p s <> WPAWN /\ getPiece p s <> BPAWN) /\
-  inCheck (setWhiteMove zk p (negb (whiteMove p))) = false /\
-  castleMask p < 16 /\ fixCastleMask p (castleMask p) = castleMask p /\
-  (0 <= halfMoveClock p <= INT_MAX)%Z /\ (0 <= fullMoveCounter p <= INT_MAX)%Z /\
-  (epSquare p = (-1)%Z \/
-   (0 <= epSquare p < 64)%Z /\ getPiece p (Z.to_N (epSquare p)) = EMPTY /\
-   (if whiteMove p then Z.shiftr (epSquare p) 3 = 5%Z /\ getPiece p (Z.to_N (epSquare p) - 8) = BPAWN
-    else Z.shiftr (epSquare p) 3 = 2%Z /\ getPiece p (Z.to_N (epSquare p) + 8) = WPAWN)).
-Definition C02_fen_roundtrip_statement : Prop :=
-  forall zk p, emptyKeysZero zk -> fenAcceptable zk p ->
-    exists q, readFEN zk (toFEN p) = FenOk q /\ normEmpty q = normEmpty (fixupEPSquare zk p).
+(** FEN round trip *)
+(** [fenAcceptable zk p] (Chess/PositionFen.v): p is consistent, has one king each, no pawn on the
+    first/last rank, the side not to move is not in check, castle mask < 16 and compatible with
+    king/rook placement, counters in 0..INT_MAX, e.p. square absent or plausible (right rank, empty,
+    pawn behind it).  Then the reader gives back p, up to its documented e.p. fix-up. *)
+Theorem C02_fen_roundtrip : forall zk, emptyKeysZero zk -> forall p, fenAcceptable zk p ->
+  exists q, normEmpty q = normEmpty p /\ readFEN zk (toFEN p) = FenOk (fixupEPSquare zk q).
+Proof. exact fen_roundtrip. Qed.
+Print Assumptions C02_fen_roundtrip.
+
+Theorem C02_fen_roundtrip_nonvacuous : fenAcceptable zk0 startPos.
+Proof. exact startPos_acceptable. Qed.
+Print Assumptions C02_fen_roundtrip_nonvacuous.
+
+Theorem C02_fen_roundtrip_no_ep : forall zk, emptyKeysZero zk -> forall p, fenAcceptable zk p ->
+  epSquare p = (-1)%Z -> exists q, normEmpty q = normEmpty p /\ readFEN zk (toFEN p) = FenOk q.
+Proof. exact fen_roundtrip_no_ep. Qed.
+Print Assumptions C02_fen_roundtrip_no_ep.
+
 Theorem C02_fen_roundtrip_partial : toFEN startPos = startFEN /\ readFEN zk0 (toFEN startPos) = FenOk startPos.
 Proof. exact fen_roundtrip_example. Qed.
 Print Assumptions C02_fen_roundtrip_partial.
